@@ -580,6 +580,15 @@ pub fn apply_input_plugins(
     query: &serde_json::Value,
     plugins: &Vec<Arc<dyn InputPlugin>>,
 ) -> Result<Vec<serde_json::Value>, serde_json::Value> {
+    // a query must be a JSON object: anything else (number, string, array, null, ..) is answered
+    // with an error that echoes it, instead of being flattened away or reported without its request
+    if !query.is_object() {
+        let mut q = query.clone();
+        return Err(in_ops::package_error(
+            &mut q,
+            "query is not a JSON object",
+        ));
+    }
     let mut plugin_state = serde_json::Value::Array(vec![query.clone()]);
     for plugin in plugins {
         let p = plugin.clone();
